@@ -7,7 +7,7 @@
    a theorem; the Ldmcu ladder, the eigenbasis branch, LdMcSpecialUnitary, MCU and the multi-target variant are evaluated. *)
 From Coq Require Import Reals Lra List Bool Arith.
 From Coquelicot Require Import Complex.
-From QV Require Import Sem Mat2 Toff2 Chain Barenco GateA McxModel LinearMcx LdmcsuModel.
+From QV Require Import Sem Mat2 Toff2 Chain Barenco GateA McxModel LinearMcx LdmcsuModel QdmcuModel.
 Open Scope R_scope.
 
 (* CV(c->t) ; MCX(rest->c) ; CV^dagger(c->t) ; MCX(rest->c) ; C^{rest}V(t)  =  U on t controlled on rest /\ c,
@@ -48,3 +48,25 @@ Theorem C04_ldmcsu_hconj : forall (k : nat), 2 <= k -> forall (pat : list bool) 
   forall psi, lrun A Ad Hd (ldmcsu k pat true) psi = appf (fun b => if pmatch pat k b then U else I2) k psi.
 Proof. intros k Hk pat A Ad Hd U U' H1 H2 H3 H4 H5 psi. now apply (ldmcsu_spec_hconj k Hk pat A Ad Hd U U'). Qed.
 Print Assumptions C04_ldmcsu_hconj.
+
+(* Qdmcu (quadratic depth, Iten et al. Theorem 4): controls 0..k1 with pattern pat, target K, any number of controls,
+   V (l+1) a square root of V l (custom_sqrtm iterated), Vd the daggers.  The LinearMcx blocks are the action-only ones. *)
+Theorem C04_qdmcu : forall V Vd : nat -> mat2,
+  (forall l, mmul (V (S l)) (V (S l)) = V l) -> (forall l, mmul (V l) (Vd l) = I2) -> (forall l, mmul (Vd l) (V l) = I2) ->
+  forall (K k1 lvl : nat) (pat : list bool) (psi : state), S k1 <= K ->
+  qrun V Vd (qdmcu K k1 lvl pat) psi = appf (fun b => if pmatch pat (S k1) b then V lvl else I2) K psi.
+Proof. exact qdmcu_sem. Qed.
+Print Assumptions C04_qdmcu.
+
+(* custom_sqrtm: the root taken through the spectral decomposition squares to the matrix *)
+Theorem C04_spectral_sqrt : forall (P Q : mat2) (l1 l2 r1 r2 : C),
+  mmul P P = P -> mmul Q Q = Q -> mmul P Q = Z2 -> mmul Q P = Z2 -> (r1 * r1 = l1)%C -> (r2 * r2 = l2)%C ->
+  mmul (madd (mscal r1 P) (mscal r2 Q)) (madd (mscal r1 P) (mscal r2 Q)) = madd (mscal l1 P) (mscal l2 Q).
+Proof. exact spectral_sqrt. Qed.
+Print Assumptions C04_spectral_sqrt.
+
+(* the exact LinearMcx, every pattern, every k >= 1 (the action-only variant differs by a controls-only circuit) *)
+Theorem C04_linear_mcx_exact : forall (k : nat) (pat : list bool), 1 <= k -> forall psi b,
+  srun (linear_mcx k pat false) psi b = psi (if pmatch pat k b then flipq k b else b).
+Proof. exact lm_exact. Qed.
+Print Assumptions C04_linear_mcx_exact.
